@@ -77,6 +77,35 @@ def case(rng, allow_growth=None):
     for _ in range(r.randint(1, 2)):
         new_inst()
     holders = {}     # map object ident -> list of (key expr, stored obj) for object keys
+    hlists = []      # persistent holder lists: dict(var, idx, obj, len, cap); only ever pushed to
+
+    def new_hlist():
+        # a long-lived list with another object as one of its elements; it grows by push bursts of its own, so
+        # "the holder grew, then the element grew" (and the reverse) both occur
+        o = r.choice(objs)
+        v = name('hl')
+        pads = r.randint(0, 3)
+        stmts.append(Let(v, ListLit([Str('pad%d' % i) for i in range(pads)] + [path(o)])))
+        hlists.append({'var': v, 'idx': pads, 'obj': o, 'len': pads + 1, 'cap': pads + 1})
+        o.deep_alias = True
+        tags.add('alias:holder-list')
+
+    def grow_hlist():
+        h = r.choice(hlists)
+        k = r.randint(1, 12)
+        stmts.append(For('hi', Call(Prop(Num(k), 'times'), []), [ExprS(Call(Prop(Var(h['var']), 'push'), [Var('hi')]))]))
+        h['len'] += k
+        if h['len'] > h['cap']:
+            while h['cap'] < h['len']:
+                h['cap'] = max(1, h['cap'] * 2)
+            tags.add('holder-list-grew')
+
+    def probe_hlist():
+        h = r.choice(hlists)
+        o = h['obj']
+        stmts.append(Print([Str('holder %s' % h['var']), Call(Prop(Var(h['var']), 'index'), [path(o)]),
+                            Call(Prop(Var(h['var']), 'has'), [path(o)]),
+                            Bin('==', Index(Var(h['var']), Num(h['idx'])), path(o))]))
 
     def path(o):
         return r.choice(o.paths)
@@ -220,6 +249,14 @@ def case(rng, allow_growth=None):
 
     for _ in range(r.randint(15, 45)):
         c = r.random()
+        if allow_growth and r.random() < 0.15:
+            if not hlists or r.random() < 0.2:
+                new_hlist()
+            elif r.random() < 0.5:
+                grow_hlist()
+            else:
+                probe_hlist()
+            continue
         if c < 0.25:
             store_alias()
         elif c < 0.6:
@@ -229,6 +266,9 @@ def case(rng, allow_growth=None):
     for o in objs:
         if o.kind == 'list':
             stmts.append(Print([Str('final %d' % o.ident)] + [p for p in o.paths[:4]]))
+    for h in hlists:
+        stmts.append(Print([Str('final holder %s' % h['var']), Call(Prop(Var(h['var']), 'index'), [h['obj'].paths[0]]),
+                            Call(Prop(Var(h['var']), 'len'), [])]))
     dirty = any(o.moved and o.deep_alias for o in objs)
     pos = r.choice(['module', 'fn', 'fn', 'method'])
     if pos != 'module':
